@@ -116,5 +116,17 @@ pub fn corner_projects() -> Vec<(String, Project, Vec<&'static str>)> {
         p.sig.push("inputs:a.txt".to_string());
         v.push(("same-prefix-dependencies-single-target".to_string(), p, vec!["build", "needed"]));
     }
+    // 14. two sources with the same output path (`x.txt.txtpp`, `x.txtpp.txt`); an includer of `x.txt` depends on the
+    //     first spelling; the other spelling is named first
+    {
+        let mut p = proj(
+            vec![("x.txt.txtpp", b"from x.txt.txtpp\n".to_vec()), ("x.txtpp.txt", b"from x.txtpp.txt\n".to_vec()), ("inc.out.txtpp", b"top\nTXTPP#include x.txt\nbottom\n".to_vec())],
+            vec!["x.txtpp.txt", "inc.out.txtpp", "x.txt.txtpp"],
+            vec![],
+            "twin-sources",
+        );
+        p.sig.push("inputs:x.txtpp.txt,inc.out.txtpp".to_string());
+        v.push(("twin-sources-one-output".to_string(), p, vec!["build", "needed"]));
+    }
     v
 }
